@@ -27,7 +27,8 @@ LEAN_MODULES = ['GnpyProofs.Props.C16']
 THEOREMS = [f'Gnpy.Plan.{t}' for t in (
     'plan_results_pointwise', 'plan_result_context', 'plan_perm', 'plan_leaves_settings', 'copy_leaves_settings',
     'planCopy_spec', 'planCopy_pointwise', 'effGain_antitone', 'call_unsaturated', 'call_saturated', 'edfa_state_leaks',
-    'shared_differs', 'propagate_unsaturated', 'planShared_eq_planCopy_of_unsaturated')]
+    'shared_differs', 'propagate_unsaturated', 'planShared_eq_planCopy_of_unsaturated', 'plan_leaves_simparams',
+    'cutIndices_order_free', 'cutIndices_ends', 'simparams_leak_example')]
 RULE = ('one PRNG; batch cases (85 %): random mesh of 3-5 ROADM sites + island, generated library, design power 0/2/3 dBm, '
         '2-8 requests of the kinds fixed/auto/hard/autohard/narrow/nopath/constraint/loose/huge/reserved/multislot/dense/'
         'saturating (a +3..5 dB offset comb over the full band that drives amplifiers into their p_max clamp; the number of '
@@ -43,7 +44,8 @@ RULE = ('one PRNG; batch cases (85 %): random mesh of 3-5 ROADM sites + island, 
         'sharing at least one amplifier, or an amplifier sequence with at least one clamped call')
 MODEL_SCOPE = ('modelled: planning as a function (results = map of a per-request computation, slots = fold), the per-request '
                'deep copy of compute_path_with_disjunction (propagateOnCopy), Edfa.interpol_params persistent clamp '
-               'effective_gain = min(effective_gain, p_max - pin). not modelled: what computeOne computes (C11-C14), '
+               'effective_gain = min(effective_gain, p_max - pin), the process-wide SimParams as part of the settings (World) and the '
+               'read-only channel selection of the GGN methods (cutIndices). not modelled: what computeOne computes (C11-C14), '
                'Python object identity')
 MANIFEST = {'level_note': 'proof of the pipeline model; run-time aliasing (is every mutable object really copied) is partial: '
                           'correspondence + monitor only'}
@@ -158,6 +160,28 @@ def gen_edfa(rng):
             'p_design': rng.choice([None, 2, 3])}
 
 
+class _NliSpy:
+    """records (number of carriers, cut indices) of every GGN evaluation (run-time wrap of the two static methods)"""
+
+    def __enter__(self):
+        from gnpy.core.science_utils import NliSolver
+        self.cls, self.calls = NliSolver, []
+        self.orig = {n: NliSolver.__dict__[n] for n in ('_ggn_approx', '_ggn_spectrally_separated')}
+        spy = self
+        for name, sm in self.orig.items():
+            f = sm.__func__ if isinstance(sm, staticmethod) else sm
+
+            def wrapped(cut_indices, spectral_info, *a, _f=f, **kw):
+                spy.calls.append((int(spectral_info.number_of_channels), [int(x) for x in cut_indices]))
+                return _f(cut_indices, spectral_info, *a, **kw)
+            setattr(NliSolver, name, staticmethod(wrapped))
+        return self
+
+    def __exit__(self, *a):
+        for name, sm in self.orig.items():
+            setattr(self.cls, name, sm)
+
+
 class _ClampSpy:
     """counts Edfa calls whose stored effective gain was lowered by the p_max clamp (run-time wrap, no source change)"""
 
@@ -270,6 +294,34 @@ def _plan(ctx, reqs):
     return out, order
 
 
+def _alone_main():
+    """entry point of the FRESH-PROCESS run: stdin = {"case":…, "rid":…}; stdout = core + receiver arrays of that request
+    computed alone in a process that has computed nothing else (process-wide state cannot have been touched before)"""
+    import json
+    import sys
+    d = json.load(sys.stdin)
+    case, rid = d['case'], d['rid']
+    _set_sim(case.get('sim'))
+    ctx = _build(case)
+    out, _ = _plan(ctx, [r for r in case['requests'] if r['id'] == rid])
+    core, arrays, _, _ = out[rid]
+    sys.stdout.write('\n@@RESULT@@' + json.dumps({'core': core, 'arrays': arrays}, default=float))
+
+
+def _fresh_process_alone(case, rid):
+    import json
+    import os
+    import subprocess
+    import sys
+    here = os.path.dirname(os.path.dirname(os.path.abspath(__file__)))
+    code = f'import sys; sys.path.insert(0, {here!r}); from props import c16; c16._alone_main()'
+    p = subprocess.run([sys.executable, '-W', 'ignore', '-c', code], input=json.dumps({'case': case, 'rid': rid}),
+                       capture_output=True, text=True, timeout=600)
+    if '@@RESULT@@' not in p.stdout:
+        return None, (p.stderr or p.stdout)[-600:]
+    return json.loads(p.stdout.split('@@RESULT@@')[1]), None
+
+
 def _arr_close(a, b):
     if a.keys() != b.keys():
         return False
@@ -314,7 +366,7 @@ def _run_batch(case, drv):
             _set_sim(case.get('sim'))     # put them back so that the remaining comparisons of this case are meaningful
             ok = False
         return ok
-    with _ClampSpy() as spy:
+    with _ClampSpy() as spy, _NliSpy() as nspy:
         try:
             full, order = _plan(ctx, reqs)
             impl_err = None
@@ -347,6 +399,17 @@ def _run_batch(case, drv):
             pr, _ = _plan(ctx, [reqs[i] for i in p])
             perms.append((p, pr))
             unchanged(f'planning of the batch in order {p}')
+    # ---- correspondence: the channels every GGN evaluation was made on = cutIndices of the (unchanged) parameters ---------------------
+    if case.get('sim') and nspy.calls:
+        sizes = sorted({n_ for n_, _ in nspy.calls})
+        m = drv.ask('c16.cut_indices', method=case['sim']['method'], computed_channels=None,
+                    computed_number_of_channels=case['sim']['ncomp'], nb_ch=sizes)
+        model = dict(zip(sizes, m))
+        bad = next(((n_, ix) for n_, ix in nspy.calls if model[n_] != ix), None)
+        res.cmp_exact('NliSolver.compute_nli.cut_indices', None if bad is None else [bad[0], bad[1]],
+                      None if bad is None else [bad[0], model[bad[0]]])
+        res.stats['ggn_evaluations_checked'] += len(nspy.calls)
+        res.stats['ggn_evaluations_on_combs_smaller_than_computed_number'] += sum(1 for n_, _ in nspy.calls if n_ < case['sim']['ncomp'])
     # ---- monitor: same route/mode/figures/verdict alone, in the batch and in every order ----------------------------------------------
     shared_amp = False
     routes = [set(full[r['id']][0].get('hops', [])) for r in reqs]
@@ -381,6 +444,23 @@ def _run_batch(case, drv):
             elif not _arr_close(a_f, a):
                 res.fail(f'batch dependence: request {rid} ({r["kind"]}): per-channel GSNR/OSNR at the receiver differ between '
                          f'the batch and {name}', request=rid)
+    # ---- process-wide state: under non-default SimParams one request (the full comb that follows the sparse one) is ALSO computed
+    # alone in a FRESH PROCESS, where nothing can have been left behind by earlier computations of this process
+    if case.get('sim') and len(reqs) >= 2 and not full[reqs[1]['id']][2]:
+        rid = reqs[1]['id']
+        fresh, err = _fresh_process_alone(case, rid)
+        res.stats['fresh_process_alone_runs'] += 1
+        if fresh is None:
+            res.fail(f'batch dependence: request {rid} cannot be computed alone in a fresh process: {err}', request=rid)
+        else:
+            c_full, a_full = full[rid][0], full[rid][1]
+            if batch_g.canon(fresh['core']) != batch_g.canon(c_full):
+                diff = next((k for k in c_full if c_full.get(k) != fresh['core'].get(k)), '?')
+                res.fail(f'batch dependence: request {rid} ({reqs[1]["kind"]}) reports a different {diff} in the batch than alone in '
+                         f'a fresh process: {str(c_full.get(diff))[:160]} vs {str(fresh["core"].get(diff))[:160]}', request=rid)
+            elif not _arr_close(a_full, fresh['arrays']):
+                res.fail(f'batch dependence: request {rid} ({reqs[1]["kind"]}): per-channel GSNR/OSNR at the receiver differ between '
+                         f'the batch and the request computed alone in a fresh process', request=rid)
     # ---- correspondence: the pipeline model reproduces the batch from the alone results ----------------------------------------------
     if not any(v[2] for v in full.values()):
         table = [{'key': r['id'], 'result': batch_g.canon(alone[r['id']][0])} for r in reqs]
